@@ -276,6 +276,11 @@ class MSSQLImpl(DefaultImpl):
         return options
 
 
+def _sql_literal(value: Any) -> str:
+    """escape a value that is embedded in a single-quoted T-SQL literal"""
+    return str(value).replace("'", "''")
+
+
 class _ExecDropConstraint(Executable, ClauseElement):
     inherit_cache = False
 
@@ -321,10 +326,12 @@ where parent_object_id = object_id('%(schema_dot)s%(tname)s')
 and col_name(parent_object_id, parent_column_id) = '%(colname)s'
 exec('alter table %(tname_quoted)s drop constraint ' + @const_name)""" % {
         "type": type_,
-        "tname": tname,
-        "colname": colname,
-        "tname_quoted": format_table_name(compiler, tname, schema),
-        "schema_dot": schema + "." if schema else "",
+        "tname": _sql_literal(tname),
+        "colname": _sql_literal(colname),
+        "tname_quoted": _sql_literal(
+            format_table_name(compiler, tname, schema)
+        ),
+        "schema_dot": _sql_literal(schema) + "." if schema else "",
     }
 
 
@@ -341,10 +348,12 @@ on fk.object_id=fkc.constraint_object_id
 where fkc.parent_object_id = object_id('%(schema_dot)s%(tname)s')
 and col_name(fkc.parent_object_id, fkc.parent_column_id) = '%(colname)s'
 exec('alter table %(tname_quoted)s drop constraint ' + @const_name)""" % {
-        "tname": tname,
-        "colname": colname,
-        "tname_quoted": format_table_name(compiler, tname, schema),
-        "schema_dot": schema + "." if schema else "",
+        "tname": _sql_literal(tname),
+        "colname": _sql_literal(colname),
+        "tname_quoted": _sql_literal(
+            format_table_name(compiler, tname, schema)
+        ),
+        "schema_dot": _sql_literal(schema) + "." if schema else "",
     }
 
 
@@ -392,8 +401,10 @@ def visit_rename_column(
     element: ColumnName, compiler: MSDDLCompiler, **kw
 ) -> str:
     return "EXEC sp_rename '%s.%s', %s, 'COLUMN'" % (
-        format_table_name(compiler, element.table_name, element.schema),
-        format_column_name(compiler, element.column_name),
+        _sql_literal(
+            format_table_name(compiler, element.table_name, element.schema)
+        ),
+        _sql_literal(format_column_name(compiler, element.column_name)),
         format_column_name(compiler, element.newname),
     )
 
@@ -414,6 +425,8 @@ def visit_rename_table(
     element: RenameTable, compiler: MSDDLCompiler, **kw
 ) -> str:
     return "EXEC sp_rename '%s', %s" % (
-        format_table_name(compiler, element.table_name, element.schema),
+        _sql_literal(
+            format_table_name(compiler, element.table_name, element.schema)
+        ),
         format_table_name(compiler, element.new_table_name, None),
     )
